@@ -178,7 +178,60 @@ def run_step(step, comps):
         return ["exc", type(e).__name__]
 
 
+def base_tables():
+    """Public UPPER_CASE class-level containers of the BASE classes, reduced to their string members. Used to spot words that
+    an earlier call (a dialect import, a failed parse) has added to a table every dialect shares; each such word is then
+    turned into output probes - the oracle stays output-based."""
+    import enum
+
+    from sqlglot.dialects.dialect import Dialect
+    from sqlglot.generator import Generator
+    from sqlglot.parser import Parser
+    from sqlglot.tokens import Tokenizer
+
+    out = {}
+    for cls in (Dialect, Parser, Generator, Tokenizer):
+        for name in dir(cls):
+            if not name.isupper() or name.startswith("_"):
+                continue
+            try:
+                v = getattr(cls, name)
+            except Exception:
+                continue
+            if isinstance(v, dict):
+                items = list(v.keys())
+            elif isinstance(v, (set, frozenset, list, tuple)):
+                items = list(v)
+            else:
+                continue
+            words = sorted(set(x for x in items if isinstance(x, str) and 0 < len(x) <= 24 and x.replace("_", "").isalnum()))
+            if words or not items:
+                out["%s.%s" % (cls.__name__, name)] = words
+    return out
+
+
+def leak_probes(cold):
+    from sim.corpus import corpus
+
+    now = base_tables()
+    new_words = []
+    for table, words in sorted(now.items()):
+        base = set(cold.get(table, []))
+        for w in words:
+            if w not in base and (table, w) not in new_words:
+                new_words.append((table, w))
+    probes = []
+    for table, w in new_words[:6]:
+        for tpl in corpus.VOCAB_TEMPLATES:
+            for d in (None, "postgres"):
+                call = {"op": "transpile", "sql": tpl.format(w=w.lower()), "read": d, "write": d}
+                probes.append({"table": table, "word": w, "call": call, "output": run_step(dict(call, comp="fresh"), Components())})
+    return probes, len(new_words)
+
+
 def run(req):
+    if req.get("mode") == "tables":
+        return {"tables": base_tables()}
     rec = req["record"]
     cfg = rec.get("config", {})
     garbage = None
@@ -192,8 +245,11 @@ def run(req):
     outs = []
     for step in rec["steps"]:
         outs.append(run_step(step, comps))
+    probes, n_new = ([], 0)
+    if req.get("cold_tables") is not None:
+        probes, n_new = leak_probes(req["cold_tables"])
     import sqlglot.dialects.dialect as dd
 
     loaded = sorted(k for k in dd.Dialect._classes if k)
     del garbage
-    return {"outputs": outs, "dialects_loaded_in_order": [m.split(".")[-1] for m in sys.modules if m.startswith("sqlglot.dialects.") and m.count(".") == 2][:60], "classes": loaded}
+    return {"outputs": outs, "leak_probes": probes, "new_base_table_words": n_new, "dialects_loaded_in_order": [m.split(".")[-1] for m in sys.modules if m.startswith("sqlglot.dialects.") and m.count(".") == 2][:60], "classes": loaded}
